@@ -144,6 +144,13 @@ type c17h struct {
 	trace []string // reset line + state-changing op lines of the current trace
 	kinds []string // op-kind/outcome sequence of the current trace
 	nontr bool
+
+	// the monitors' own shadow of the sell orders (c17_monitors_test.go: monitorOrders), kept from the
+	// op lines: who placed the open order of an asset, and in which ownership period of that asset
+	placed     map[string]c17placed // "n<i>" / "l<i>" -> placement
+	epoch      map[string]int       // "n<i>" / "l<i>" -> number of ownership changes seen so far
+	unexpected []string             // outcomes of directed-trace lines that differ from what the script expects (statistics)
+	boEpoch    map[string]int       // buy-order id -> ownership period of its asset when the offer was made (statistics only)
 }
 
 func (h *c17h) ctx() sdk.Context { return h.f.Ctx }
@@ -688,6 +695,7 @@ func (h *c17h) exec(line string) string {
 		h.trace = []string{line}
 		h.kinds = nil
 		h.nontr = false
+		h.placed, h.epoch, h.boEpoch = map[string]c17placed{}, map[string]int{}, map[string]int{}
 		return h.reset(f)
 	case "v", "own", "res", "rev", "bon", "bol", "bob":
 		obs := h.query(f)
